@@ -1,1 +1,2 @@
+import PytaskProofs.Properties.C01
 import PytaskProofs.Properties.C19
